@@ -258,7 +258,7 @@ def run(chk, replay=None):
             strs = [statement(st_attrs[j - 1], st_ops[j - 1], thr[j - 1], use_dt[j - 1]) for j in idx]
             o = objs[oi]
             if k == 'spatial':
-                r = guarded(o.filter_spatial, region, in_place=inplace)
+                r = guarded(o.filter_spatial, region, in_place=inplace, update_stats=(len(calls) % 2 == 1))
             elif k == 'one':
                 r = guarded(o.filter, strs[0], in_place=inplace)
             elif k == 'list':
